@@ -19,7 +19,8 @@ provable and is NOT claimed.  What is decided are structural necessary condition
          locals such as `valid_decl`);
   R12.6  structural fall-backs: `ItemResolver::resolve` stops on a repeated id, failed type parses fall back
          to opaque blobs, `Type::from_clang_ty` answers unknown clang kinds with an error value;
-  R12.7  libclang's refusal to build a translation unit is not `unwrap`ped.
+  R12.7  libclang's refusal to build a translation unit is not `unwrap`ped;
+  R12.8  user text never becomes a `proc_macro2::Ident` unchecked (`Ident::new` panics on a non-identifier).
 """
 import re
 from collections import defaultdict
@@ -469,7 +470,7 @@ def ctx_field(n, fields):
     return None
 
 
-@RULES.rule("R12.1", "conditionally computed results are only unwrapped where their condition holds", floor=28)
+@RULES.rule("R12.1", "conditionally computed results are only unwrapped where their condition holds", floor=22)
 def r12_1(rep):
     """Breaks: make `compute_has_float` run only under `derive_eq` → `--with-derive-ord` alone reaches
     `lookup_has_float` (`ctx.options().derive_ord && … !ctx.lookup_has_float(id)`) and unwraps `None`."""
@@ -583,6 +584,7 @@ def r12_1(rep):
 # R12.2 taint
 # ---------------------------------------------------------------------------------------------
 TEXT_RE = re.compile(r"\bstr\b|\bString\b|\bCow<|\bOsStr|\bPathBuf\b|\bPath\b")
+GENERIC_RE = re.compile(r"^&?(?:mut )?[A-Z]\w?$")
 SCALAR_RE = re.compile(r"^&*(?:mut )?(bool|u8|u16|u32|u64|u128|usize|i8|i16|i32|i64|i128|isize|f32|f64|char|\(\))$")
 LOOKUPS = {"get", "get_mut", "get_key_value", "remove", "remove_entry", "take", "first", "last", "nth", "strip_prefix", "strip_suffix",
            "trim_start_matches", "trim_end_matches", "split", "rsplit", "splitn", "rsplitn", "split_once", "rsplit_once",
@@ -656,7 +658,8 @@ class Taint:
 
     def textual(self, body, n):
         t = body.ty(n) or ""
-        return bool(TEXT_RE.search(t))
+        # `name: S where S: AsRef<str>` — a bare generic parameter may carry text as well
+        return bool(TEXT_RE.search(t)) or bool(GENERIC_RE.match(t))
 
     def expr(self, body, n, depth=4):
         key = (body.path, n["_i"], depth)
@@ -897,7 +900,7 @@ def consumer(body, n):
         return "handled", p
 
 
-@RULES.rule("R12.2", "user text (string options, header annotations) never reaches an unwrapped lexer/parser call", floor=24)
+@RULES.rule("R12.2", "user text (string options, header annotations) never reaches an unwrapped lexer/parser call", floor=29)
 def r12_2(rep):
     """Breaks (today's tree): `--module-raw-line root '('`, `--ctypes-prefix '('`,
     `/// <div rustbindgen attribute="((("></div>` all end in `LexError` → `unwrap()` → panic."""
@@ -1017,7 +1020,7 @@ def returned_as_err(body, n):
     return False
 
 
-@RULES.rule("R12.3", "every failure class is reported as its BindgenError value, before clang/AST work that would mask it", floor=22)
+@RULES.rule("R12.3", "every failure class is reported as its BindgenError value, before clang/AST work that would mask it", floor=21)
 def r12_3(rep):
     """Breaks: `d.severity() > CXDiagnostic_Error` lets a header with plain errors through to the AST visit
     (bindings for a rejected header); testing `md.is_file()` instead of the three-way triage turns a missing
@@ -1098,6 +1101,8 @@ def r12_3(rep):
             d = parse.local_def.get(msg["id"])
             if d and d[0][0] == "letcond" and strip(d[0][1]["init"]).get("k") == "Local":
                 acc = strip(d[0][1]["init"])["id"]
+            elif d and d[0][0] == "arm" and strip(d[0][1]["scrut"]).get("k") == "Local":
+                acc = strip(d[0][1]["scrut"])["id"]
             elif d and d[0][0] == "let":
                 acc = msg["id"]
         if not rep.check(acc is not None, "diag-message-source", "the ClangDiagnostic payload is the accumulated diagnostics text", parse.loc(c)):
@@ -1165,8 +1170,12 @@ def r12_3(rep):
                 if not any(all(s in a for s in sub) and p == pol for a, p, _ in atoms):
                     miss.append(("" if pol else "!") + sub[0])
             from_header = any("input_headers" in a for a, _, _ in atoms)
-            rep.check(not miss and from_header and c["_i"] < first_clang and returned_as_err(gen, c), "triage:" + variant,
-                      "%s → %s%s" % (what, variant, "" if not miss else " — guard lacks %s; has %s" % (miss, [("" if p else "!") + a[:90] for a, p, _ in atoms])),
+            # nothing else may decide: only the header path and its metadata
+            allowed = ("std::fs::Metadata::is_dir(", "::can_read(", "= " + MD, ".options::BindgenOptions::input_headers")
+            extra = [("" if p else "!") + a[:90] for a, p, _ in atoms if not any(x in a for x in allowed)]
+            rep.check(not miss and not extra and from_header and c["_i"] < first_clang and returned_as_err(gen, c), "triage:" + variant,
+                      "%s → %s%s%s" % (what, variant, "" if not miss else " — guard lacks %s; has %s" % (miss, [("" if p else "!") + a[:90] for a, p, _ in atoms]),
+                                       "" if not extra else " — also depends on %s" % extra),
                       gen.loc(c))
 
     MD = "std::fs::metadata("
@@ -1230,7 +1239,7 @@ PARSE_ROOT_RE = re.compile(r"^(ir::item::Item::parse|ir::item::Item::from_ty\w*|
                            r"<.* as parse::ClangSubItemParser>::parse|parse_one|parse)$")
 
 
-@RULES.rule("R12.4", "codegen-phase-only functions are unreachable from the parse-phase entry points", floor=24)
+@RULES.rule("R12.4", "codegen-phase-only functions are unreachable from the parse-phase entry points", floor=23)
 def r12_4(rep):
     """Breaks: calling `ctx.allowlisted_items()` (or any `lookup_*`) from `Item::from_ty_with_id` unwraps a result
     that is only computed in `BindgenContext::gen` → panic on every header."""
@@ -1441,7 +1450,7 @@ class Balance:
         return self
 
 
-@RULES.rule("R12.5", "begin_parsing / finish_parsing are balanced on every path", floor=8)
+@RULES.rule("R12.5", "begin_parsing / finish_parsing are balanced on every path", floor=9)
 def r12_5(rep):
     """Breaks: dropping the final `if valid_decl { ctx.finish_parsing(); }` leaves a stale entry on
     `currently_parsed_types`; a later `finish_parsing` of an enclosing type pops the wrong frame and its
@@ -1490,7 +1499,7 @@ def self_env(body, s):
 # ---------------------------------------------------------------------------------------------
 # R12.6 structural fall-backs
 # ---------------------------------------------------------------------------------------------
-@RULES.rule("R12.6", "cycle detection and opaque fall-backs are in place", floor=7)
+@RULES.rule("R12.6", "cycle detection and opaque fall-backs are in place", floor=6)
 def r12_6(rep):
     """Breaks: without the seen-set test `ItemResolver::resolve` spins forever on `A → B → A` reference cycles
     (incomplete qualified dependent types, #2085); `.expect()` instead of the opaque fall-back in
@@ -1591,7 +1600,7 @@ def _same_test(body, g, ins, pol):
 # ---------------------------------------------------------------------------------------------
 # R12.7 libclang failure
 # ---------------------------------------------------------------------------------------------
-@RULES.rule("R12.7", "a translation unit libclang refuses to build is an error value, not a panic", floor=2)
+@RULES.rule("R12.7", "a translation unit libclang refuses to build is an error value, not a panic", floor=3)
 def r12_7(rep):
     """Breaks (today's tree): `clang_parseTranslationUnit` returns NULL (unknown `-Xclang` flag, unknown target triple,
     no input at all) → `TranslationUnit::parse` = None → `.expect("libclang error; …")` in BindgenContext::new."""
@@ -1607,3 +1616,33 @@ def r12_7(rep):
                   "None is handled (%s)" % (at.get("name") or at["k"]) if how != "panic" else
                   "`TranslationUnit::parse(..).%s(..)`: libclang's refusal (bad clang flag, unknown target, no input) panics instead of "
                   "returning a BindgenError" % at.get("name"), b.loc(c))
+
+
+# ---------------------------------------------------------------------------------------------
+# R12.8 user text as identifier
+# ---------------------------------------------------------------------------------------------
+@RULES.rule("R12.8", "user text is never turned into an identifier unchecked (Ident::new panics on non-identifiers)", floor=14)
+def r12_8(rep):
+    """Breaks (today's tree): `--dynamic-loading my-lib` → `ctx.rust_ident("my-lib")` → `Ident::new` panics with
+    "`my-lib` is not a valid Ident"; `/// <div rustbindgen replaces="a b"></div>` names an item `a b`.
+    (`rust_mangle` only rewrites keywords and `@ ? $`.)  Same taint engine and sources as R12.2; one instance per
+    `Ident::new` call site, keyed by the function that contains it."""
+    prog = rep.prog
+    ta = Taint(prog)
+    sites = []
+    for b in prog.bodies.values():
+        if b.path.startswith("options::cli::") or "::tests::" in b.path:
+            continue
+        for n in b.nodes:
+            if n["k"] == "Call" and callee_of(n) in ("proc_macro2::Ident::new", "proc_macro2::Ident::new_raw") and n["args"]:
+                sites.append((b, n))
+    rep.need(sites, "calls of proc_macro2::Ident::new")
+    for b, n in sites:
+        labs = ta.close(b, ta.expr(b, n["args"][0]))
+        if not labs:
+            rep.ok("ident-of-fixed-text@" + short(b), "`%s` derives from no user-text source" % b.canon(n["args"][0], 3)[:100], b.loc(n))
+            continue
+        for lab in sorted(labs):
+            rep.bad("ident-of-user-text:%s@%s" % (lab, short(b)),
+                    "`Ident::new(..)` panics when the user-supplied text of `%s` is not a Rust identifier; it must be validated / reported "
+                    "as an error value first" % lab, b.loc(n))
